@@ -83,10 +83,84 @@ func audOf(p map[string]any) []string {
 	return nil
 }
 
+// jsonKind names the JSON type of a decoded value.
+func jsonKind(x any) string {
+	switch x.(type) {
+	case nil:
+		return "null"
+	case string:
+		return "string"
+	case float64:
+		return "number"
+	case bool:
+		return "bool"
+	case []any:
+		return "list"
+	case map[string]any:
+		return "object"
+	}
+	return "?"
+}
+
+func listOfStrings(x any) bool {
+	l, ok := x.([]any)
+	if !ok {
+		return false
+	}
+	for _, e := range l {
+		if _, ok := e.(string); !ok {
+			return false
+		}
+	}
+	return true
+}
+
+var timeMembers = map[string]bool{"exp": true, "iat": true, "auth_time": true, "nbf": true, "updated_at": true}
+
+// wellTyped tells whether the value of a registered member has the JSON type OIDC Core gives that member.
+func wellTyped(k string, x any) bool {
+	kind := jsonKind(x)
+	switch {
+	case timeMembers[k]:
+		return kind == "number"
+	case k == "aud":
+		return kind == "string" || listOfStrings(x)
+	case k == "amr":
+		return listOfStrings(x)
+	case k == "address" || k == "act":
+		return kind == "object"
+	case k == "email_verified":
+		return kind == "bool" || kind == "string" // providers that send it as text are provided for by the library
+	case k == "phone_number_verified":
+		return kind == "bool"
+	}
+	return kind == "string"
+}
+
+// mistypedMembers lists the registered members of the payload whose value has another JSON type (null included).
+func mistypedMembers(p map[string]any) []string {
+	var out []string
+	for k, x := range p {
+		if registered[k] && !wellTyped(k, x) {
+			out = append(out, k)
+		}
+	}
+	slices.Sort(out)
+	return out
+}
+
 func reference(c *cfg, p map[string]any, alg string, withAccess bool, access string, now time.Time) verdict {
 	var v verdict
 	rej := func(d string) { v.Reject = append(v.Reject, d) }
 	grey := func(d string) { v.Grey = append(v.Grey, d) }
+
+	// A registered member of another JSON type than the one OIDC Core gives it makes the token malformed: refusing it is
+	// legitimate, so completeness is not demanded (grey). Soundness is: every condition below is judged on what the
+	// payload literally says - a member that is present with a value that can not equal the required one fails its
+	// condition, whatever a decoder makes of it.
+	for _, k := range mistypedMembers(p) {
+		grey("mistyped:" + k)
+	}
 
 	// names the configured issuer
 	if iss, _ := str(p, "iss"); iss != c.Issuer {
@@ -102,12 +176,17 @@ func reference(c *cfg, p map[string]any, alg string, withAccess bool, access str
 		rej("aud")
 	}
 	// azp equal to the client ID whenever present; present whenever there are several audiences
-	azp, azpPresent := str(p, "azp")
+	azpRaw, azpPresent := p["azp"]
+	azp, azpText := azpRaw.(string)
 	distinct := map[string]bool{}
 	for _, a := range aud {
 		distinct[a] = true
 	}
 	switch {
+	case azpPresent && azpRaw == nil:
+		// "azp": null - neither clearly present nor clearly absent (grey through mistyped:azp); not judged further
+	case azpPresent && !azpText:
+		rej("azp") // present, and nothing but the text of the client id equals the client id
 	case azpPresent && azp == "":
 		grey("azp-empty-string") // present-but-empty: the library treats it as absent; the statement does not say
 	case azpPresent && azp != c.ClientID:
@@ -164,7 +243,8 @@ func reference(c *cfg, p map[string]any, alg string, withAccess bool, access str
 	}
 	// satisfies the configured nonce requirement: equals what the configured function returns
 	if c.NonceFn {
-		if n, _ := str(p, "nonce"); n != c.NonceVal {
+		raw, present := p["nonce"]
+		if n, text := raw.(string); n != c.NonceVal || (present && raw != nil && !text) {
 			rej("nonce")
 		}
 	}
@@ -190,8 +270,11 @@ func reference(c *cfg, p map[string]any, alg string, withAccess bool, access str
 	}
 	// verified together with an access token: a present at_hash is the left-half hash of exactly that token
 	if withAccess {
-		if ah, present := str(p, "at_hash"); present {
+		if raw, present := p["at_hash"]; present && raw != nil {
+			ah, text := raw.(string)
 			switch {
+			case !text:
+				rej("at_hash") // present and not the text of any hash
 			case ah == "":
 				grey("at_hash-empty-string")
 			case ah != leftHalf(hashFor(alg), access):
